@@ -65,7 +65,10 @@ from props._declrun import DeclRunStream, DECLRUN_TRUSTED, DECLRUN_RULE
 from props import _declrun_corpus as DC
 
 
-class Decl(DeclStream):
+from props._decl_corpus2 import DeclParamDeps, CORPUS_PARAM_DEPS
+
+
+class Decl(DeclParamDeps):
     """generated classes with dense dependency graphs (valid and invalid) through the real loader and PreparedProject.create"""
     name = "C04.decl"
     profile = "deps"
@@ -74,7 +77,7 @@ class Decl(DeclStream):
     quick_seconds = 16
     thorough_cases = 1500
     thorough_seconds = 300
-    corpus = CORPUS_DEPS
+    corpus = CORPUS_DEPS + CORPUS_PARAM_DEPS
 
 
 class DeclRun(DeclRunStream):
